@@ -2,10 +2,10 @@
 """Regenerate MANIFEST.json from the table below (kept in one place so that level texts stay honest)."""
 import json
 CLAIMS = {
- "C01": ("Coq theorem on the flag function REGENERATED from deflate/core.rs: every level above 10 yields the flags of level 10. "
-         "The round-trip clause is decided per explored run: the crate's one-shot decoder AND the extracted RFC 1951/1950 specification must reproduce the input from the emitted bytes; level-0 outputs are byte-exact against the Coq model of the control plane + stored engine.",
-         "PARTIAL: no forall-theorem yet that compress_to_vec's output decodes to the input (needs T_stored/T_frame, DESIGN 4.3); the grow-and-retry loop is modelled and tied at level 0 only; levels >= 1 rest on the spec oracle.",
-         "Coq proof over source-regenerated flag function + extracted-spec oracle + level-0 model differential"),
+ "C01": ("Coq theorems: (a) on the flag function REGENERATED from deflate/core.rs, every level above 10 yields the flags of level 10; (b) level 0 is lossless for EVERY input: whatever the Coq model of compress_to_vec_inner (control plane, stored engine, grow-and-retry loop; tied to the code line by line on every run) returns for a flag word with TDEFL_FORCE_ALL_RAW_BLOCKS is decoded by the RFC 1951/1950 specification to exactly the input with all output consumed, and has length n + 5(n/31745+1) (+6 for zlib). "
+         "For levels 1-10 the round-trip clause is decided per explored run: the crate's one-shot decoder AND the extracted specification must reproduce the input from the emitted bytes (inputs include lazy-match staircases straddling block flushes and Huffman-depth-limit statistics).",
+         "PARTIAL: the forall-input round-trip theorem covers level 0 (partial correctness: if the model returns a vector); the Huffman/LZ engines of levels >= 1 are outside the model and rest on the spec oracle.",
+         "Coq proof (model of compress_to_vec at level 0 refines a stored-block encoder; spec decodes it) + source-regenerated flag function + extracted-spec oracle + level-0 model differential"),
  "C03": ("Coq theorem (kernel computation over the tables REGENERATED from inflate/core.rs): the decoder's LENGTH_BASE/LENGTH_EXTRA/DIST_BASE/length-order tables and the distance-extra formula equal the RFC 1951 tables of the specification on all live symbols. M_inf (complete Gallina transliteration of decompress_with_limit and all wrappers) is compared line by line with the implementation (debug+release) on grammar-generated valid streams through 7 entry points; the extracted specification is the oracle for plaintext and consumed length.",
          "PARTIAL: the simulation M_inf -> specification (T_sim/T_abs) is not proved; conformance is decided per explored stream by the spec oracle.",
          "Coq table proof + executable model differential + extracted-spec oracle"),
@@ -36,7 +36,7 @@ CLAIMS = {
  "C14": ("Coq theorems on the model of deflate()/compress_inner (control plane shared by all levels): empty output refused with the compressor untouched; after stream end Finish => stream end/0/0 and anything else => buffer error; non-Finish after Finish => parameter error consuming and emitting nothing. Exhaustive/random call sequences vs model (byte-exact at level 0) and protocol oracle.",
          "PARTIAL: progress/termination under Finish decided per run; engines above level 0 not modelled.",
          "Coq proof on the control-plane model + differential + protocol oracle"),
- "C15": ("Coq theorems on the bound formula REGENERATED from src/lib.rs: no overflow below 2^56, equals max(128+1.1n, 128+n+5(n/31744+1)), monotone, and >= the exact level-0 zlib size 2+n+5(floor(n/31745)+1)+4 (the formula is confirmed against implementation and model each run). Adversarial search over content classes/levels records the worst size/bound ratio.",
+ "C15": ("Coq theorems on the bound formula REGENERATED from src/lib.rs: no overflow below 2^56, equals 128+n+n/8+5(n/31744+1) (dominates miniz's max(128+1.1n, 128+n+5(n/31744+1)); allows 9 bits per input byte), monotone; and for EVERY input the level-0 zlib output of the compress_to_vec model has exactly 2+n+5(floor(n/31745)+1)+4 bytes and is within the bound (C15_level0_output_within_bound, via the level-0 round-trip theorem). Adversarial search over content classes/levels/strategies (incl. 9-bit literals under the fixed code beyond the window: the defect repaired in ff08c25) records the worst size/bound ratio.",
          "PARTIAL BY NATURE: the worst-case size of Huffman-coded blocks for every input is not proved (needs optimality bounds of length-limited codes).",
          "Coq proof over source-regenerated formula + adversarial search"),
  "C02": ("Coq theorem on the model of the control plane + stored engine (compress_inner, flush_block, flush_output_buffer, compress_stored; every flag word with FORCE_ALL_RAW_BLOCKS): for every compressor state, chunk, output length and flush mode a call reports consumed <= offered and written <= out_len (loop invariant over the stored engine and the pending-output bookkeeping). Losslessness under (level, strategy, format, window bits) x schedules x sinks is decided per explored schedule by the extracted specification on the concatenated output; level-0 lines are byte-exact against the model.",
